@@ -19,10 +19,11 @@ META = dict(
                 "rational-function normaliser, else solver); (2) with the products replaced by shared abstract values T_j the reported "
                 "history equals min(1,1/T_j) on the regular region and the overall value is min/last; (3) conventions: entry 0 once "
                 "the total seen exceeds N t, entry 1 where m_j > u; (4) alpha_mart driven by lam_to_eta(bet) has factor-wise the same "
-                "statistic as betting_mart and the same history; (5) the two conversions are mutual inverses for 0 < mu < u.",
+                "statistic as betting_mart and the same history; (5) the two conversions are mutual inverses for 0 < mu < u; (6) the call leaves "
+                "the supplied sample array unchanged (in-place operators and asarray aliasing modelled), so a second call sees the same sample.",
     bounds={"quick": {"n": [2, 3], "N": "n, n+3, inf", "ut": "plur, cmp10"},
             "thorough": {"n": [2, 3, 4], "N": "n, n+1, n+3, 50, inf", "ut": list(nnm.UT)}},
-    outside=["samples longer than the bound", "floating-point rounding",
+    outside=["samples longer than the bound", "floating-point rounding", "views sharing memory with the caller's array (slices are copies in the model)",
              "the region where the code's isclose-conventions fire: m_j within 1e-7 of 0 or within 1e-4 (relative) of u"],
     assumptions=["same parameter ranges as C11", "regular region: 1e-7 <= m_i <= u(1-1e-4) for all i <= j"],
     trusted=["exact sparse-polynomial normaliser (symx.norm)", "float model = exact reals + IEEE special values"],
